@@ -5,5 +5,6 @@ CONSTANT MaxDepth = 0
 CONSTANT PauseSet = "full"
 CONSTANT GenDepth = 6
 CONSTANT GenSet = "full"
+CONSTANT TourMode = "none"
 INVARIANT Emit
 CHECK_DEADLOCK FALSE
